@@ -357,6 +357,7 @@ def merge_obligations(pid, tier, seed):
                                 args.append(('%s%d' % (pv, i), 'int'))
                         if n > 1:
                             pre.append(' < '.join('%s%d' % (pk, i) for i in range(n)))
+                    args0, pre0 = list(args), list(pre)
                     extra = tot <= 3
                     if extra:
                         args += [('so', 'int'), ('sc', 'int'), ('sn', 'int'), ('eo', 'bool'), ('ec', 'bool'), ('en', 'bool')]
@@ -367,6 +368,10 @@ def merge_obligations(pid, tier, seed):
                     P = dict(family='OO', kind=kind, n=[na, nb, nc])
                     obs.append(dict(id='%s/%s/%d%d%d' % (pid, kind, na, nb, nc), mod='h_merge', fn='merge_case', nk=0,
                                     args=args, pre=pre, params=P, timeout=t))
+                    if not is_set and kind == 'Bucket' and 3 <= tot <= (4 if tier == 'quick' else 6) and min(na, nb, nc) >= 1:
+                        # values that are only partially ordered (equal or incomparable, like frozensets / NaN)
+                        obs.append(dict(id='%s/%s/%d%d%d/pv' % (pid, kind, na, nb, nc), mod='h_merge', fn='merge_case', nk=0,
+                                        args=args0, pre=pre0, params=dict(P, values='partial'), timeout=t))
         obs.append(dict(id='%s/%s/malformed' % (pid, kind), mod='h_merge', fn='malformed_case', nk=0,
                         args=[('i0', 'int'), ('i1', 'int'), ('i2', 'int')],
                         pre=['0 <= i0 < 12', '0 <= i1 < 12', '0 <= i2 < 12'], params=dict(family='OO', kind=kind), timeout=t))
